@@ -10,7 +10,7 @@ import itertools
 import math
 from pe_util import np, pe, close
 
-RULE = ('exhaustive: 16 Grid tags + 6 unknown tags; 125 + 625 index tuples; K_n for n=0..6 on 9 arguments in (0.05,20) in four '
+RULE = ('exhaustive: 16 Grid tags + about 270 unknown tags (all concatenations of two valid names, case / padding variants); 125 + 625 index tuples; K_n for n=0..6 on 9 arguments in (0.05,20) in four '
         'usage forms (direct, scaled, inside log, array); each re-exported special function on a grid with central-difference oracle')
 TRUSTED = ['scipy.special values of K_n and of the re-exported functions (the derivative oracle is built from them)',
            'autograd vjps of the re-exported special functions (contract, measured)']
@@ -54,6 +54,8 @@ def spec_tag(tag):
 TAGS = ['Identity', 'Gamma5', 'GammaX', 'GammaY', 'GammaZ', 'GammaT', 'GammaXGamma5', 'GammaYGamma5', 'GammaZGamma5',
         'GammaTGamma5', 'SigmaXT', 'SigmaXY', 'SigmaXZ', 'SigmaYT', 'SigmaYZ', 'SigmaZT']
 UNKNOWN = ['SigmaTX', 'Gamma6', '', 'identity', 'GammaXGammaY', 'SigmaXX']
+# every concatenation of two valid names that is not itself a valid name, case variants and padded names
+UNKNOWN += sorted(set(a + b for a in TAGS for b in TAGS) - set(TAGS)) + [t.lower() for t in TAGS] + [' ' + t for t in TAGS[:4]] + [t + ' ' for t in TAGS[:4]]
 
 
 def perm_sign(t):
